@@ -36,6 +36,8 @@ var c17Families = []urlFamily{
 	{"path-middle-num", func(k int) string { return fmt.Sprintf("http://example.com/story/%d/the-long-read", k) }},
 	{"file-article-num-html", func(k int) string { return fmt.Sprintf("http://example.com/news/article-%d.html", k) }},
 	{"path-post-num", func(k int) string { return fmt.Sprintf("http://example.com/post/%d", k) }},
+	// zero-padded page numbers
+	{"file-zero-padded", func(k int) string { return fmt.Sprintf("http://example.com/gallery/photo-%02d.html", k) }},
 	// a file-name suffix below a year/month folder (the number is not a path component of its own)
 	{"file-suffix-in-year-month-folder", func(k int) string { return fmt.Sprintf("http://example.com/2014/07/budget-talks-%d.html", k) }},
 }
